@@ -11,6 +11,7 @@ func init() {
 		sc := r.Scratch()
 		if f := Get("C08"); f != nil {
 			f(sc, p)
+			r.Import(sc, "C08.pure", "C07.wrappure", "standard functions applied to a fromjson / --argjson / JSON-input value (length, keys, has, index ...) only read it: no gojqx wrapper method writes through memory it did not allocate, math/big receivers are fresh (length of a negative big integer must not flip the number itself) (C08.pure obligations)", 100, nil)
 			r.Import(sc, "C08.iface", "C07.wrappers", "the gojqx wrappers of JSON values (what fromjson, --argjson and decoded JSON hand to standard jq functions) answer length/index/slice/each/keys/has/key from one collection with the plain value's semantics (C08.iface obligations, without the recorded String.Index finding)", 25,
 				func(k string) bool { return k != "String.Index:out-of-range" })
 		}
